@@ -30,10 +30,17 @@ Section Box.
   Definition project_onto_tr (x xk : vec) (bs : list bound) (trSize t : T) : vec :=
     if needs_root_find x xk bs trSize then project (vaxpy xk t (vsub x xk)) bs else project x bs.
 
-  (* the step length used by one SPG iteration: alpha = min(1.0, line_search(...)) if sBs > 0 else 1.0 *)
+  (* the step length used by one SPG iteration (repo commit d722144):
+       alpha = line_search(ds, sBs, q, qMax, settings)
+       alpha = min(1.0, max(0.0, alpha)) if sBs > 0 else 1.0
+     Python's max(0.0, a) is a if a > 0.0 else 0.0; min(1.0, m) is m if m < 1.0 else 1.0 (a NaN is clipped to 0). *)
+  Definition clip01 (a : T) : T :=
+    let m := if nltb nzero a then a else nzero in
+    if nltb m nunit then m else nunit.
+  Definition line_search_alpha (nonmonotone : bool) (ds sBs q qMax : T) : T :=
+    if nonmonotone then nonmonotone_line_search ds sBs q qMax nzero else kouri_exact_line_search ds sBs q qMax nzero.
   Definition spg_alpha (nonmonotone : bool) (ds sBs q qMax : T) : T :=
-    let a := if nonmonotone then nonmonotone_line_search ds sBs q qMax nzero else kouri_exact_line_search ds sBs q qMax nzero in
-    if nltb nzero sBs then (if nltb a nunit then a else nunit) else nunit.
+    if nltb nzero sBs then clip01 (line_search_alpha nonmonotone ds sBs q qMax) else nunit.
   (* z += alpha*s with s = project_onto_tr(...) - xNew : the new trial point x + z *)
   Definition spg_update (xNew p : vec) (alpha : T) : vec := vaxpy xNew alpha (vsub p xNew).
 
